@@ -39,6 +39,7 @@ type Config struct {
 	MaxSwitches int              `json:"max_switches"`
 	FPContract bool              `json:"fp_contract"`
 	ConcreteClock bool           `json:"concrete_clock"`
+	NoMutexPreempt bool          `json:"no_mutex_preempt"` // context switches only at channel ops, go, Yield and blocking
 	SortMapIter bool             `json:"sort_map_iter"`
 	TimeoutMS  int               `json:"solver_timeout_ms"`
 	SecondTimeoutS int           `json:"second_timeout_s"`
